@@ -74,7 +74,7 @@ fn selftest_determinism(args: &driver::Args) -> i32 {
     use std::sync::atomic::{AtomicUsize, Ordering};
     use std::sync::{Arc, Mutex};
     let per_variant = args.runs_override.unwrap_or(12);
-    let ids = ["C01", "C02", "C03", "C04", "C05", "C06", "C07", "C08", "C09", "C10", "C11", "C14", "C16", "C18", "C20", "C13"];
+    let ids = ["C01", "C02", "C03", "C04", "C05", "C06", "C07", "C08", "C09", "C10", "C11", "C14", "C16", "C17", "C18", "C19", "C20", "C13"];
     let mut jobs = vec![];
     for id in ids {
         let Some(spec) = checks::spec(id) else { continue };
